@@ -3,6 +3,7 @@ from engine import sx, Raw
 from common import *
 
 PID = "C20"
+TIES = ['tagged_hash']   # source-tie files coq/Properties/Tie_<f>.v that belong to this property
 THEOREMS = ["C20_ripemd", "C20_ripemd_tables", "C20_tagged", "C20_sign_total", "C20_sign_verifies", "C20_verify_ranges", "C20_s_unique", "C20_point_mul"]
 TECHNIQUE = "Coq proof (RIPEMD-160 model = 32-bit word specification for every length; BIP340 completeness and uniqueness over the abstract curve) + extracted-model correspondence against pycryptodome, hashlib and libsecp256k1"
 RULE = ("RIPEMD-160 on every length 0..300 and random lengths to 100000 (padding boundaries 55/56/63/64/119/120); tagged hashes through both copies; "
@@ -227,3 +228,8 @@ def oracle(d):
         y = pow(ysq, (P + 1) // 4, P)
         if y * y % P != ysq: return "INF"
         return "%d,%d" % (x, y if y % 2 == 0 else P - y)
+
+
+# source tie (DESIGN 13.8)
+from common import with_ties
+LEVEL_TEXT, LEVEL_NOTE, TECHNIQUE = with_ties(TIES, LEVEL_TEXT, LEVEL_NOTE, TECHNIQUE)
